@@ -2,6 +2,7 @@
 (shared by C04, C13, C14, C15, C16, C18)."""
 from ..srules import S, find_values, contains_value, unbyref
 from ..guard import PROVED, VIOLATION, UNDECIDED
+from ..facts import AnchorMissing
 from ..prove import lin_add, lin_const, lin_atoms
 from ..sym import strip_sites, walk
 from .effects import kind_of, effect_sites
@@ -306,6 +307,7 @@ def appender_callers(ctx, s, need_write_txn=True):
         bad.append("%s -> %s" % (F.nice_of(p), c))
     s.add("S-EFFECT", app, "no-mutable-map-access", "pocket-db", app.sp, PROVED if not bad else VIOLATION,
           "no function of pocket-db obtains a mutable pointer or slice into the event map" if not bad else "; ".join(bad))
+    no_direct_file_writes(ctx, s)
     # positive example for the zero-expected query: the dependency itself does use as_mut_ptr
     pos = [c for p, bi, c, t in G.reaches_external([ctx.fn(DEP_APPEND).path], lambda c: c.rsplit("::", 1)[-1] == "as_mut_ptr")]
     ctx.floor("S-EFFECT.positive-example as_mut_ptr in mmap_append", len(pos), 1)
@@ -485,3 +487,97 @@ def one_snapshot(ctx, s, root="pocket_db::Store::find_events"):
     if not bad:
         s.add("S-TXN", fn, "second-snapshot-in-query", "none", fn.sp, PROVED,
               "none of the %d functions reachable from the query opens a transaction" % (len(scope) - 1))
+
+
+FILE_WRITE = ("write", "write_all", "write_at", "write_all_at", "write_vectored", "write_fmt", "seek", "sync_all", "sync_data",
+              "set_permissions", "set_modified", "set_times")
+
+
+def no_direct_file_writes(ctx, s):
+    """bytes of the event map change only through the appender of the mapping: no function of pocket-db writes
+    to a file through a file handle (set_len, judged separately, excepted)"""
+    F, G = ctx.F, ctx.G
+    bad = []
+    for p, f in sorted(F.fns.items()):
+        if not p.startswith("pocket_db::"):
+            continue
+        for bi, c, t in G.sites[p]:
+            l = c.rsplit("::", 1)[-1]
+            if "OpenOptions" in (t.get("aty") or [""])[0]:
+                continue        # builder flags of an open call, not I/O
+            if l in FILE_WRITE and (c.startswith("std::fs::") or c.startswith("std::os::unix::fs::") or c.startswith("std::io::")
+                                    or "FileExt" in c or "io::Write" in c or c.startswith("std::io::impls::")):
+                bad.append((f, bi, c, t))
+    anchor = ctx.fn(APPENDER)
+    for f, bi, c, t in bad:
+        s.add("S-EFFECT", f, "file-written-directly", c.rsplit("::", 2)[-2] + "::" + c.rsplit("::", 1)[-1], t["sp"], VIOLATION,
+              "pocket-db writes to a file through a file handle (%s): stored bytes or the end marker can change under live references, "
+              "outside the append-only discipline" % c, bi)
+    if not bad:
+        s.add("S-EFFECT", anchor, "file-written-directly", "none", anchor.sp, PROVED,
+              "no function of pocket-db writes to a file through a file handle (growth by set_len only)")
+
+
+def recorded_length_is_file_length(ctx, s):
+    """the length remembered for the grow arithmetic is the file's real length (or the chunk for a new file)"""
+    fn = ctx.fn("pocket_db::EventStore::new")
+    an = ctx.E.an(fn)
+    adt = ctx.F.adts.get("pocket_db::event_store::EventStore")
+    fields = [f["n"] for f in adt["variants"][0]["fields"]] if adt else []
+    if "event_map_file_len" not in fields:
+        raise AnchorMissing("EventStore.event_map_file_len")
+    fi = fields.index("event_map_file_len")
+    sites = set()
+    for n, k, v in s.return_kinds(fn):
+        if k != "ok":
+            continue
+        for a in find_values(v, lambda y: y[0] == "agg" and y[1].startswith("adt:pocket_db::event_store::EventStore:")):
+            fv = a[2][fi]
+            for c in find_values(fv, lambda y: y[0] == "call" and y[1].startswith("core::sync::atomic::") and y[1].endswith("::new")):
+                sites.add(c[3][1] if c[3] else None)
+    news = [(b, i) for b, i in an.calls() if b in sites]
+    for b, info in news:
+        v = info["args"][0]
+        vals = [v]
+        if v[0] == "phi":
+            vals = []
+            for e in an.cfg.in_edges[v[1]]:
+                st = an.out_state.get(e.src)
+                if st is not None:
+                    vals.append(an.read(st, v[2]))
+        real = any(contains_value(x, lambda y: y[0] == "call" and y[1].rsplit("::", 1)[-1] == "len" and "fs" in y[1]) for x in vals)
+        s.add("S-REL", fn, "recorded-length-is-file-length", "event_map_file_len", info["sp"], PROVED if real else VIOLATION,
+              "for an existing file the recorded length is metadata().len()" if real else
+              "the recorded file length does not come from the file's metadata: after a reopen the next grow computes a length "
+              "below the real one and set_len truncates stored events", b)
+
+
+def delineate_minimum(ctx, s):
+    """Event::delineate rejects exactly the inputs shorter than the smallest event (144 header + 4 tags + 4 content length)
+    or shorter than their own recorded length"""
+    fn = ctx.fn("pocket_types::Event::delineate")
+    an = ctx.E.an(fn)
+    inp = ("param", 1)
+    ln = an.len_of(inp)
+    errs = [(n, v) for n, k, v in s.return_kinds(fn) if k == "err"]
+    oks = [n for n, k, v in s.return_kinds(fn) if k == "ok"]
+    MIN = 144 + 4 + 4
+    exact = False
+    loose = False
+    for n in oks:
+        for f in ctx.E.facts(fn, n):
+            if f[0] == "le" and len(f[1][1]) == 1 and f[1][1][0] == (ln, -1):
+                if f[1][0] == MIN:
+                    exact = True        # MIN - len <= 0
+                elif f[1][0] > MIN:
+                    loose = True
+    rej = False
+    for n, v in errs:
+        for f in ctx.E.facts(fn, n):
+            if f[0] == "le" and len(f[1][1]) == 1 and f[1][1][0] == (ln, 1) and f[1][0] == -(MIN - 1):
+                rej = True              # len - 151 <= 0
+    ok = exact and rej and not loose
+    s.add("S-REL", fn, "minimum-event-length", "len >= 152", fn.sp, PROVED if ok else VIOLATION,
+          "accepts every input of at least 152 bytes (the smallest event) whose recorded length fits; rejects shorter ones" if ok else
+          "the minimum-length test of delineate is not 'reject iff len < 152': the smallest legal event (no tags, empty content) "
+          "is unreadable, or shorter garbage is accepted")
